@@ -2532,6 +2532,11 @@ def nf_simplify(n):
             return other
     if n and n[0] == "payload" and n[1] == "Some" and isinstance(n[2], tuple) and n[2][0] == "map" and len(n[2]) == 3:
         return n[2][2]         # what `opt.map(f)` holds is f of what `opt` holds (the body is written over that payload already)
+    if n and n[0] == "call" and isinstance(n[1], str) and n[1].rsplit("::", 1)[-1] == "unwrap_or" and len(n[2]) == 2:
+        # `opt.map(f).unwrap_or(d)` (also behind `as_deref()` ..): f of what `opt` holds where it holds something, else d
+        inner = _through_identity(n[2][0])
+        if isinstance(inner, tuple) and inner[0] == "map" and len(inner) == 3:
+            return ("ifelse", ("islet", "Some(_)", _through_identity(inner[1])), inner[2], n[2][1])
     if n and n[0] == "payload" and n[1] == "Some" and isinstance(n[2], tuple) and n[2][0] == "ifelse":
         is_none_ = lambda v: isinstance(v, tuple) and ((v[0] == "const" and str(v[1]).rsplit("::", 1)[-1] == "None") or v == ("lit", None))
         if is_none_(n[2][2]) and not is_none_(n[2][3]):
@@ -2941,11 +2946,21 @@ class CallExpander:
                     out.append(q)
             return out
 
+        def cat(a, b):
+            pa, pb = as_parts(a), as_parts(b)
+            return as_nf(pa + pb)
+
         def as_nf(parts):
             merged = []
             for q in parts:
                 if q[0] == "lit" and merged and merged[-1][0] == "lit":
                     merged[-1] = ("lit", merged[-1][1] + q[1])
+                elif q[0] == "hole" and merged and merged[-1][0] == "hole" and isinstance(q[1], tuple) and q[1][0] == "match" \
+                        and isinstance(merged[-1][1], tuple) and merged[-1][1][0] == "match" and merged[-1][1][1] == q[1][1] \
+                        and [l_ for l_, _ in merged[-1][1][2]] == [l_ for l_, _ in q[1][2]]:
+                    # two decisions on the same value one after the other are one decision: per arm, the one text behind the other
+                    prev = merged[-1][1]
+                    merged[-1] = ("hole", ("match", prev[1], tuple((l_, cat(a_, b_)) for (l_, a_), (_l2, b_) in zip(prev[2], q[1][2]))), "display", "?")
                 else:
                     merged.append(q)
             if len(merged) == 1 and merged[0][0] == "hole" and (len(merged[0]) < 4 or merged[0][3] in ("?", None, "")):
@@ -3002,6 +3017,17 @@ class CallExpander:
                 else:
                     cond = N.nf(c, en)
                 return [("hole", ("ifelse", cond, as_nf(text(x["then"], env_t)), as_nf(text(x["else"], en))), "display", "?")]
+            if k == "If":
+                # no else: nothing is written where the condition fails
+                c = H.strip(x["cond"])
+                env_t = en.child()
+                if c.get("k") == "LetExpr":
+                    base_ = N.nf(c["init"], en)
+                    bind_pattern(c["pat"], base_, env_t)
+                    cond = ("islet", pat_label(c["pat"]), base_)
+                else:
+                    cond = N.nf(c, en)
+                return [("hole", ("ifelse", cond, as_nf(text(x["then"], env_t)), ("lit", "")), "display", "?")]
             if k == "For":
                 it = N.nf(x["iter"], en)
                 src, val, conds = iter_view(it)
@@ -3050,7 +3076,14 @@ class CallExpander:
                         en2.m[st["pat"]["id"]] = ("sepvar", st["pat"]["id"])
                     else:
                         if init is not None and any(is_f(y) for y in H.exprs(init)):
-                            raise No()
+                            # `let name = match self { A => "a", B(b) => { f.write_str(..)?; &b.name } };`: what is written while the value
+                            # is worked out, and the value
+                            wp, wv = text_and_value(init, en2)
+                            if wv is None:
+                                raise No()
+                            parts += resolve_seps(wp)
+                            bind_pattern(st["pat"], wv, en2)
+                            continue
                         N.bind_let(st, en2)
                     continue
                 if k == "Item":
@@ -3059,6 +3092,67 @@ class CallExpander:
                     raise No()
                 parts += resolve_seps(text(st["e"], en2))
             return parts
+
+        def text_and_value(x, en):
+            """(parts written into the formatter while x is evaluated, normal form of x's value or None)"""
+            x = H.strip(x)
+            if not any(is_f(y) for y in H.exprs(x)):
+                return [], N.nf(x, en)
+            k = x.get("k")
+            if k == "Block":
+                b = x["b"]
+                en2 = en.child()
+                parts = []
+                for st in b["stmts"]:
+                    if st.get("k") == "Let":
+                        init = H.strip(st["init"]) if st.get("init") else None
+                        if init is not None and any(is_f(y) for y in H.exprs(init)):
+                            wp, wv = text_and_value(init, en2)
+                            if wv is None:
+                                raise No()
+                            parts += wp
+                            bind_pattern(st["pat"], wv, en2)
+                        else:
+                            N.bind_let(st, en2)
+                        continue
+                    if st.get("k") == "Item":
+                        continue
+                    if st.get("k") not in ("Semi", "Expr"):
+                        raise No()
+                    parts += text(st["e"], en2)
+                if b.get("tail") is None:
+                    return parts, None
+                tp, tv_ = text_and_value(b["tail"], en2)
+                return parts + tp, tv_
+            if k == "Match":
+                scrut = N.nf(x["scrut"], en)
+                parms, varms = [], []
+                for a in x["arms"]:
+                    if a.get("guard"):
+                        raise No()
+                    env_a = en.child()
+                    bind_pattern(a["pat"], scrut, env_a)
+                    wp, wv = text_and_value(a["body"], env_a)
+                    if wv is None:
+                        raise No()
+                    parms.append((pat_label(a["pat"]), as_nf(wp) if wp else ("lit", "")))
+                    varms.append((pat_label(a["pat"]), wv))
+                return [("hole", ("match", scrut, tuple(parms)), "display", "?")], ("match", scrut, tuple(varms))
+            if k == "If" and x.get("else"):
+                c = H.strip(x["cond"])
+                env_t = en.child()
+                if c.get("k") == "LetExpr":
+                    base_ = N.nf(c["init"], en)
+                    bind_pattern(c["pat"], base_, env_t)
+                    cond = ("islet", pat_label(c["pat"]), base_)
+                else:
+                    cond = N.nf(c, en)
+                tp, tv_ = text_and_value(x["then"], env_t)
+                ep, ev_ = text_and_value(x["else"], en)
+                if tv_ is None or ev_ is None:
+                    raise No()
+                return [("hole", ("ifelse", cond, as_nf(tp) if tp else ("lit", ""), as_nf(ep) if ep else ("lit", "")), "display", "?")], ("ifelse", cond, tv_, ev_)
+            return text(x, en), None
         top = H.strip(nb["value"])
         try:
             v = as_nf(block(top, env) if top.get("k") == "Block" else text(top, env))
